@@ -1091,9 +1091,18 @@ class Executor:
             self._chk_undef(v)
             r = self.dom.toint(v, tt.bits, op == 'fptosi')
         elif op in ('fpext', 'fptrunc'):
-            if op == 'fptrunc' and self.dom.name == 'R':
-                raise ExecError('fptrunc in real domain')
-            r = v
+            if op == 'fptrunc':
+                # narrowing to float rounds: an uninterpreted rounding function for symbolic values (so that nothing downstream can be
+                # proved equal to the unrounded value), the IEEE single-precision value for concrete ones
+                if isinstance(v, Term):
+                    r = T.fun('round_to_float', v)
+                elif v is UNDEF:
+                    r = v
+                else:
+                    import struct as _st
+                    r = self.dom.const(_st.unpack('<f', _st.pack('<f', float(v)))[0])
+            else:
+                r = v
         else:
             raise ExecError(op)
         self._set(fr, ins, r)
